@@ -88,6 +88,14 @@ def gen_template(rng):
         chunks.append(start[prev:c])
         prev = c
     file_fields = start[prev:]
+    if len(chunks) >= 2 and rng.random() < 0.35:
+        # cumulative directory levels ({year}/{year}{month}/{year}{month}{day}/...): several different
+        # placeholders repeated, the first occurrence of one behind a repetition of another
+        acc, cum = [], []
+        for c in chunks:
+            acc = acc + c
+            cum.append(list(acc))
+        chunks = cum
     if not file_fields or rng.random() < 0.4:
         # repeat some fields in the file part (duplicate placeholders)
         file_fields = rng.choice([start, start[:2] + file_fields if len(start) > 2 else start,
